@@ -38,19 +38,23 @@ def make_payload(case, grid=None):
 def run_case(case):
     grid = {"g23": fm.UniformGrid((3, 4)), "g32r": fm.UniformGrid((3, 4), axes_reversed=True),
             "nogrid": fm.NoGrid(), "nogrid1": fm.NoGrid(1)}[case["grid"]]
-    out = fm.Output(name="Out")
-    inp = fm.Input(name="In")
+    static = bool(case.get("st"))
+    t0 = None if static else day(0)
+    out = fm.Output(name="Out", static=static)
+    inp = fm.Input(name="In", static=static)
     out >> inp  # pylint: disable=pointless-statement
     inp.ping()
     fixed_mask = FIXED_MASK.T if case["grid"] == "g32r" else FIXED_MASK
     kw = {"mask": fixed_mask} if case.get("om") == "fixed" else {}
-    out.push_info(fm.Info(time=day(0), grid=grid, units=case["ou"], **kw))
-    inp.exchange_info(fm.Info(time=day(0), grid=grid, units=case["iu"] or None))
+    out.push_info(fm.Info(time=t0, grid=grid, units=case["ou"], **kw))
+    inp.exchange_info(fm.Info(time=t0, grid=grid, units=case["iu"] or None))
     obs = {"res": "ok", "shape": [], "num": 0, "den": 1, "units": "", "masked": False, "alias": ""}
     payload = make_payload(case, grid)
     try:
-        out.push_data(payload, day(0))
+        out.push_data(payload, t0)
         data = inp.pull_data(day(0))
+        if static:      # every read of a static link delivers the same: observe the second one
+            data = inp.pull_data(day(3))
         mag = fm.data.get_magnitude(data)
         obs["shape"] = list(mag.shape)
         obs["masked"] = bool(np.ma.isMaskedArray(mag) and np.ma.getmaskarray(mag).any())
